@@ -186,6 +186,15 @@ func anyInput(rng *rand.Rand, n int) []int {
 }
 
 func preds(rng *rand.Rand) *Pred {
+	p := basePred(rng)
+	if rng.Intn(4) == 0 {
+		// a predicate that fails on some elements, answering (true, error) there
+		p.EM, p.ER = 4, rng.Intn(4)
+	}
+	return p
+}
+
+func basePred(rng *rand.Rand) *Pred {
 	switch rng.Intn(6) {
 	case 0:
 		return &Pred{Kind: "lt", C: rng.Intn(10)}
@@ -301,6 +310,21 @@ func generate(family string, rng *rand.Rand, thorough bool) []plan {
 				}
 				if s.Kind == "unfold" || s.Kind == "emit" {
 					nin = 0
+				}
+				if rep%2 == 0 {
+					// the context is cancelled before the stage is even created: everything still closes
+					pin := make([][]int, nin)
+					pic := make([]int, nin)
+					var psc []intent
+					for i := range pin {
+						pin[i] = []int{100*i + 1}
+						pic[i] = rng.Intn(2)
+						psc = append(psc, intent{kind: "send", i: i}, intent{kind: "close", i: i})
+					}
+					if s.Kind == "emit" || s.Kind == "throttle" {
+						psc = append(psc, intent{kind: "sleep", d: 3 * max(s.Freq, 1)})
+					}
+					add(plan{stage: s, icaps: pic, inputs: pin, sched: &scripted{script: psc}, maxMoves: 20, drain: rep%4 == 0, gen: "pre-cancelled"})
 				}
 				timed := s.Kind == "emit" || s.Kind == "throttle"
 				slp := 0
@@ -530,6 +554,18 @@ func generate(family string, rng *rand.Rand, thorough bool) []plan {
 			}
 			ab = append(ab, intent{kind: "cancel"})
 			add(plan{stage: &Stage{Kind: "unfold", N: ucap, Seed: rng.Intn(5), A: 2, B: 1}, sched: &scripted{script: ab}, maxMoves: 10, drain: false, gen: "absent-consumer"})
+			if rep%5 == 0 {
+				add(plan{stage: &Stage{Kind: "unfold", N: rng.Intn(3), Seed: rng.Intn(5), A: 1, B: 1}, sched: &scripted{script: []intent{{kind: "recv", k: 0}, {kind: "recv", k: 1}}}, maxMoves: 6, drain: rep%10 == 0, gen: "pre-cancelled"})
+				add(plan{stage: &Stage{Kind: "emit", N: rng.Intn(3), Freq: freq, A: 1, B: 0}, sched: &scripted{script: []intent{{kind: "sleep", d: 3 * freq}, {kind: "recv", k: 0}}}, maxMoves: 6, drain: false, gen: "pre-cancelled"})
+				// frequencies that divide nothing round (7 ticks) and the degenerate frequency 0 (no pause at all; the
+				// consumer's pace is then the only brake, so no Try failures here)
+				var ks []intent
+				for j := 0; j < 5; j++ {
+					ks = append(ks, intent{kind: "sleep", d: 7}, intent{kind: "recv", k: 0}, intent{kind: "recv", k: 0})
+				}
+				add(plan{stage: &Stage{Kind: "emit", N: rng.Intn(3), Freq: 7, A: 2, B: 1}, sched: &scripted{script: ks}, maxMoves: 40, drain: true, gen: "keeps-up"})
+				add(plan{stage: &Stage{Kind: "emit", N: rng.Intn(3), Freq: 0, A: 1, B: 0}, sched: rnd(0, 0, 4, 1, 0, 0, nil), maxMoves: 12, drain: true, gen: "random"})
+			}
 			// after the cancel the consumer parks in a blocking receive and takes whatever comes: the generator must
 			// notice the cancel although its send never has to wait
 			var pk []intent
